@@ -38,7 +38,8 @@ Definition scalar_code (tol : Q) (model observed : Q) : nat :=
 (* the power function instantiated with the float results observed on the implementation:
    table of (x, x ** e) for the (at most ten) distinct reductions of a case *)
 Definition pw_lookup (table : list (Q * Q)) (x e : Q) : Q :=
-  match find (fun kv => close_el (1 # 1000000000) 0 (fst kv) x) table with
+  if Qeq_bool e 1 then x   (* x ** 1 is x exactly, in floats as well *)
+  else match find (fun kv => close_el (1 # 1000000000) 0 (fst kv) x) table with
   | Some kv => snd kv
   | None => -1
   end.
